@@ -551,6 +551,7 @@ double *_vnacal_new_solve_calc_weights(vnacal_new_solve_state_t *vnssp)
     double noise = vnp->vn_m_error_vector[findex].vnme_sigma_nf;
     double tracking = vnp->vn_m_error_vector[findex].vnme_sigma_tr;
     double *w_vector = NULL;
+    int k = 0;	/* index over all equations of all systems */
 
     assert(vnp->vn_m_error_vector != NULL);
     if ((w_vector = calloc(vnp->vn_equations, sizeof(double))) == NULL) {
@@ -558,8 +559,6 @@ double *_vnacal_new_solve_calc_weights(vnacal_new_solve_state_t *vnssp)
 	return NULL;
     }
     for (int sindex = 0; sindex < vnp->vn_systems; ++sindex) {
-	int k = 0;
-
 	vs_start_system(vnssp, sindex);
 	while (vs_next_equation(vnssp)) {
 	    vnacal_new_equation_t *vnep = vnssp->vnss_vnep;
